@@ -54,7 +54,12 @@ type imgResult struct {
 	ElapsedMs  int64             `json:"elapsed_ms"`
 }
 
+var verbose = os.Getenv("VERIF_C07_VERBOSE") != ""
+
 func (r *imgResult) fail(class, format string, args ...interface{}) {
+	if verbose {
+		fmt.Printf("  FAIL image %d %s: %s\n", r.Image, class, fmt.Sprintf(format, args...))
+	}
 	for _, v := range r.Violations {
 		if v.Class == class {
 			r.Counters["violations."+class]++
@@ -68,8 +73,10 @@ func (r *imgResult) fail(class, format string, args ...interface{}) {
 // verifier holds the ledger derived tables shared by all images of a history.
 type verifier struct {
 	L           *ledger
-	metaFirst   map[string]int64 // dictionary component -> tick at which it was first applied in the driven run
+	metaFirst   map[string]int64 // dictionary component -> tick by which it certainly existed in the driven run
 	seriesFirst map[string]int64
+	metaLo      map[string]int64 // dictionary component -> tick before which it certainly did not exist
+	seriesLo    map[string]int64
 	slotOwner   map[string]*rowRef // family/slot -> row
 	rows        []*rowRef
 	metrics     []string
@@ -82,7 +89,7 @@ type rowRef struct {
 }
 
 func newVerifier(L *ledger) *verifier {
-	v := &verifier{L: L, metaFirst: map[string]int64{}, seriesFirst: map[string]int64{}, slotOwner: map[string]*rowRef{}}
+	v := &verifier{L: L, metaFirst: map[string]int64{}, seriesFirst: map[string]int64{}, metaLo: map[string]int64{}, seriesLo: map[string]int64{}, slotOwner: map[string]*rowRef{}}
 	seen := map[string]bool{}
 	for i := range L.Entries {
 		e := &L.Entries[i]
@@ -107,6 +114,18 @@ func newVerifier(L *ledger) *verifier {
 				}
 				if t, ok := v.seriesFirst[ser]; !ok || e.AppliedTick < t {
 					v.seriesFirst[ser] = e.AppliedTick
+				}
+				lo := e.ApplyLo
+				if lo == 0 {
+					lo = e.AppliedTick
+				}
+				for _, c := range meta {
+					if t, ok := v.metaLo[c]; !ok || lo < t {
+						v.metaLo[c] = lo
+					}
+				}
+				if t, ok := v.seriesLo[ser]; !ok || lo < t {
+					v.seriesLo[ser] = lo
 				}
 			}
 		}
@@ -174,17 +193,17 @@ func (v *verifier) inHole(ref *rowRef, k int) bool {
 	comps, ser := row.components()
 	for _, c := range comps {
 		if t, ok := v.metaFirst[c]; ok && t >= lastMeta {
-			note(t)
+			note(v.metaLo[c])
 		}
 	}
 	if t, ok := v.seriesFirst[ser]; ok && t >= lastIndex {
-		note(t)
+		note(v.seriesLo[ser])
 	}
 	if uncovered < 0 {
 		return false
 	}
 	for _, f := range v.L.Flushes {
-		if f.BeginImg > k || f.BeginTick < uncovered {
+		if f.BeginImg > k || f.BeginTickHi < uncovered {
 			continue
 		}
 		if (f.Kind == "index" && f.Shard == row.Shard) || (f.Kind == "data" && f.Shard == ref.entry.Part.Shard && f.Family == ref.entry.Part.Family) {
@@ -205,6 +224,24 @@ func (v *verifier) holeIDs(k int) idSet {
 		}
 	}
 	return set
+}
+
+// overlapsDataFlush: a data flush of the entry's family ran (partly) between the start of the replicator's WriteRows
+// and its CommitSequence for this entry.
+func (v *verifier) overlapsDataFlush(e *entryRec) bool {
+	if e.ApplyLo == 0 {
+		return false
+	}
+	end := e.CommitTick
+	if end == 0 {
+		end = 1 << 62
+	}
+	for _, f := range v.L.Flushes {
+		if f.Kind == "data" && f.Shard == e.Part.Shard && f.Family == e.Part.Family && f.SwitchLo < end && f.BeginTickHi > e.ApplyLo && f.BeginTickHi > f.SwitchLo {
+			return true
+		}
+	}
+	return false
 }
 
 // anyEntryStarted: had a WriteLog of the partition been called when image k was taken?
@@ -306,6 +343,18 @@ func (v *verifier) verifyImage(img imageRec, deep bool) (res *imgResult) {
 		return res
 	}
 	recovered := len(parts)
+	// entries still in a log must be replayed by the restart itself, not only when the next write stream of that
+	// (shard, family) happens to arrive: Recovery has to rebuild the local replicator of every consumer group it finds
+	for key, ps := range parts {
+		if o := obs[key]; o != nil && o.HasGroup {
+			if _, reps := replica.VerifReplicators(ps.inner); len(reps) == 0 {
+				res.fail("C07/recovery-does-not-restart-replication", "%s: the log has a consumer group of the local replicator (ack %d, appended %d) but WriteAheadLogManager.Recovery built no replicator",
+					key, o.GroupAck, o.Appended)
+			} else {
+				res.Counters["replicators_rebuilt_by_recovery"]++
+			}
+		}
+	}
 	// what the next write stream of each (shard, family) does: partition + local replicator
 	wal := mgr.GetOrCreateLog(dbName)
 	for _, key := range L.Parts {
@@ -502,9 +551,32 @@ func (v *verifier) checkData(res *imgResult, n *node.Node, k int, obs map[partKe
 		ref    *rowRef
 		status int
 	}
+	// an entry whose WriteLog was in flight when the image was taken counts iff the recovered log contains it
+	inflight := map[int]int{}
+	statusOf := func(e *entryRec) int {
+		st := entryStatus(e, k)
+		if st != stMay || e.Seq < 0 {
+			return st
+		}
+		if o := obs[e.Part]; o != nil && o.Appended >= e.Seq {
+			inflight[e.ID] = stMust
+			return stMust
+		}
+		inflight[e.ID] = stAbsent
+		return stAbsent
+	}
 	byMetric := map[string][]cell{}
 	for _, ref := range v.rows {
-		byMetric[ref.row.Metric] = append(byMetric[ref.row.Metric], cell{ref, entryStatus(ref.entry, k)})
+		byMetric[ref.row.Metric] = append(byMetric[ref.row.Metric], cell{ref, statusOf(ref.entry)})
+	}
+	if suffix == "" {
+		for _, st := range inflight {
+			if st == stMust {
+				res.Counters["in_flight_entries_found_in_the_recovered_log"]++
+			} else {
+				res.Counters["in_flight_entries_not_in_the_recovered_log"]++
+			}
+		}
 	}
 	applied := map[string]bool{}
 	for key, o := range obs {
@@ -516,12 +588,46 @@ func (v *verifier) checkData(res *imgResult, n *node.Node, k int, obs map[partKe
 	if len(hole) == 0 && suffix == "" {
 		res.Counters["images_without_a_row_in_the_flush_protocol_window"]++
 	}
+	reuseCache := map[*rowRef]string{}
+	ownReuse := func(ref *rowRef) string {
+		if len(hole) == 0 {
+			return ""
+		}
+		if why, ok := reuseCache[ref]; ok {
+			return why
+		}
+		now := lookupIDs(n, ref.row)
+		why := hole.collision(ref.row, &now)
+		reuseCache[ref] = why
+		return why
+	}
+	// reused: a name of the row - or of another row of the same metric in the same shard, whose series share the
+	// metric's forward / inverted index blocks with it - now carries an id that durable index entries or data of a row in
+	// the flush protocol window still use for something else.
+	scopeCache := map[string]string{}
 	reused := func(ref *rowRef) string {
 		if len(hole) == 0 {
 			return ""
 		}
-		now := lookupIDs(n, ref.row)
-		return hole.collision(ref.row, &now)
+		if why := ownReuse(ref); why != "" {
+			return why
+		}
+		scope := fmt.Sprintf("%d/%s", ref.row.Shard, ref.row.Metric)
+		if why, ok := scopeCache[scope]; ok {
+			return why
+		}
+		why := ""
+		for _, other := range v.rows {
+			if other.row.Shard != ref.row.Shard || other.row.Metric != ref.row.Metric || statusOf(other.entry) == stAbsent {
+				continue
+			}
+			if w := ownReuse(other); w != "" {
+				why = "in the index of the same metric: " + w
+				break
+			}
+		}
+		scopeCache[scope] = why
+		return why
 	}
 	// classify a row the recovered node does not return although it must
 	classifyLost := func(ref *rowRef) string {
@@ -560,12 +666,12 @@ func (v *verifier) checkData(res *imgResult, n *node.Node, k int, obs map[partKe
 		}
 	}
 	// classify a value found where the ledger has none: whose data is it?
-	classifyForeign := func(slotKey string) (string, string) {
+	classifyForeign := func(slotKey string, selected []*rowRef) (string, string) {
 		owner, ok := v.slotOwner[slotKey]
 		if !ok {
 			return "C07/query-returns-data-nobody-wrote", "no row of the history uses this slot"
 		}
-		st := entryStatus(owner.entry, k)
+		st := statusOf(owner.entry)
 		if st == stAbsent {
 			return "C07/query-returns-data-of-an-entry-appended-after-the-image", owner.row.key()
 		}
@@ -574,6 +680,12 @@ func (v *verifier) checkData(res *imgResult, n *node.Node, k int, obs map[partKe
 		}
 		if why := reused(owner); why != "" {
 			return "C07/flush-protocol-window/id-of-unflushed-name-reused", owner.row.key() + ": " + why
+		}
+		// the names the query itself resolves (metric, field, group-by keys, filter value) are names of the rows it selects
+		for _, ref := range selected {
+			if why := reused(ref); why != "" {
+				return "C07/flush-protocol-window/id-of-unflushed-name-reused", owner.row.key() + "; a name the query resolves: " + why
+			}
 		}
 		return "C07/data-attributed-to-wrong-series", owner.row.key()
 	}
@@ -612,22 +724,25 @@ func (v *verifier) checkData(res *imgResult, n *node.Node, k int, obs map[partKe
 		var qs []q
 		for _, f := range sortedKeys(fields) {
 			f := f
-			qs = append(qs, q{"field " + f, fmt.Sprintf("select %s from '%s' where time >= '%s' and time <= '%s' group by uid", f, m, from, to), f,
+			qs = append(qs, q{"field " + f, fmt.Sprintf("select %s from '%s' where time >= '%s' and time <= '%s' group by uid limit 100000", f, m, from, to), f,
 				func(r *rowRec) bool { return hasStr(r.Fields, f) }})
 		}
 		for _, kx := range sortedKeys(keys) {
 			kx := kx
-			qs = append(qs, q{"group by " + kx, fmt.Sprintf("select f from '%s' where time >= '%s' and time <= '%s' group by uid,%s", m, from, to, kx), "f",
+			qs = append(qs, q{"group by " + kx, fmt.Sprintf("select f from '%s' where time >= '%s' and time <= '%s' group by uid,%s limit 100000", m, from, to, kx), "f",
 				func(r *rowRec) bool { _, ok := r.Extra[kx]; return ok }})
 		}
 		if hs := sortedKeys(hosts); len(hs) > 0 {
 			h := hs[(k+len(m))%len(hs)]
-			qs = append(qs, q{"where host=" + h, fmt.Sprintf("select f from '%s' where host='%s' and time >= '%s' and time <= '%s' group by uid", m, h, from, to), "f",
+			qs = append(qs, q{"where host=" + h, fmt.Sprintf("select f from '%s' where host='%s' and time >= '%s' and time <= '%s' group by uid limit 100000", m, h, from, to), "f",
 				func(r *rowRec) bool { return r.Host == h }})
 		}
 		for qi, qq := range qs {
 			got, err := queryCells(c, L, qq.sql, qq.field)
 			queries++
+			if verbose {
+				fmt.Printf("  QUERY %s -> err=%v %v\n", qq.sql, err, got)
+			}
 			if err != nil {
 				if !notFound(err) {
 					res.fail("C07/query-fails"+suffix, "%s: %v", qq.sql, err)
@@ -637,11 +752,14 @@ func (v *verifier) checkData(res *imgResult, n *node.Node, k int, obs map[partKe
 				res.Counters["queries_answered_not_found"]++
 			}
 			used := map[string]bool{}
-			perEntry := map[int][2]int{} // entry id -> [present, absent] rows of in-flight entries
+			var selected []*rowRef
 			for _, cl := range cells {
 				row := cl.ref.row
 				if !qq.sel(row) {
 					continue
+				}
+				if cl.status != stAbsent {
+					selected = append(selected, cl.ref)
 				}
 				slotKey := fmt.Sprintf("%d/%d", row.Family, row.Slot)
 				val := got[row.UID][slotKey]
@@ -668,7 +786,7 @@ func (v *verifier) checkData(res *imgResult, n *node.Node, k int, obs map[partKe
 						cls := "C07/entry-counted-twice/above-stored-sequence"
 						if cl.ref.entry.Seq <= o.Durable {
 							cls = "C07/entry-counted-twice/at-or-below-stored-sequence"
-						} else if cl.ref.entry.Raced {
+						} else if cl.ref.entry.Raced || v.overlapsDataFlush(cl.ref.entry) {
 							// the flush that started between WriteRows and CommitSequence of this entry stored its rows
 							// under the previous sequence
 							cls = "C07/entry-counted-twice/data-flush-started-between-writerows-and-commitsequence"
@@ -677,31 +795,10 @@ func (v *verifier) checkData(res *imgResult, n *node.Node, k int, obs map[partKe
 							row.key(), cl.ref.entry.ID, cl.ref.entry.Part, cl.ref.entry.Seq, val, qq.sql, o.Durable, o.Applied)
 					}
 				case stMay:
-					pa := perEntry[cl.ref.entry.ID]
-					switch {
-					case val == 1:
-						pa[0]++
-					case val == 0:
-						pa[1]++
-					default:
-						res.fail("C07/in-flight-entry-counted-twice"+suffix, "row %s has value %v in %q", row.key(), val, qq.sql)
-					}
-					perEntry[cl.ref.entry.ID] = pa
+					// WriteLog never returned and the sequence is unknown: nothing to require
 				case stAbsent:
 					if val != 0 {
 						res.fail("C07/query-returns-data-of-an-entry-appended-after-the-image"+suffix, "row %s has value %v in %q", row.key(), val, qq.sql)
-					}
-				}
-			}
-			if qi == 0 {
-				for id, pa := range perEntry {
-					if pa[0] > 0 && pa[1] > 0 {
-						res.fail("C07/in-flight-entry-partially-applied"+suffix, "entry %d: %d rows present, %d absent", id, pa[0], pa[1])
-					}
-					if pa[0] > 0 {
-						res.Counters["in_flight_entries_found_in_the_recovered_log"]++
-					} else {
-						res.Counters["in_flight_entries_not_in_the_recovered_log"]++
 					}
 				}
 			}
@@ -711,7 +808,7 @@ func (v *verifier) checkData(res *imgResult, n *node.Node, k int, obs map[partKe
 					if used[uid+"@"+slotKey] {
 						continue
 					}
-					cls, owner := classifyForeign(slotKey)
+					cls, owner := classifyForeign(slotKey, selected)
 					res.fail(cls+suffix, "%q returns value %v for uid %s at slot %s, which belongs to %s", qq.sql, val, uid, slotKey, owner)
 				}
 			}
@@ -763,7 +860,7 @@ func (v *verifier) freshWrite(res *imgResult, n *node.Node, parts map[partKey]*p
 	c := node.NewCluster(n, node.Layout{})
 	defer c.Close()
 	from, to := v.timeRange()
-	sql := fmt.Sprintf("select f from 'fresh' where time >= '%s' and time <= '%s' group by uid", from, to)
+	sql := fmt.Sprintf("select f from 'fresh' where time >= '%s' and time <= '%s' group by uid limit 100000", from, to)
 	got, err := queryCells(c, L, sql, "f")
 	lostClass := "C07/write-after-recovery-lost"
 	foreignClass := "C07/new-names-after-recovery-show-foreign-data"
